@@ -109,6 +109,11 @@ func (l *Logger) ModifyRequest(req *http.Request) error {
 	}
 
 	r, err := mv.Reader(opts...)
+	if err != nil && l.decode {
+		// The body cannot be decoded with the encodings the message names: log it
+		// as it is rather than fail the exchange.
+		r, err = mv.Reader()
+	}
 	if err != nil {
 		return err
 	}
@@ -159,6 +164,11 @@ func (l *Logger) ModifyResponse(res *http.Response) error {
 	}
 
 	r, err := mv.Reader(opts...)
+	if err != nil && l.decode {
+		// The body cannot be decoded with the encodings the message names: log it
+		// as it is rather than fail the exchange.
+		r, err = mv.Reader()
+	}
 	if err != nil {
 		return err
 	}
